@@ -298,6 +298,18 @@ def st_case(draw):
                                                    max_size=2 if mode == "some" else 4))))
         cmds.append({"name": "cmd%d" % i if draw(st.booleans()) else "c%dx" % i,
                      "internal": draw(st.integers(0, 3)) == 0, "parents": parents, "help2": draw(st.booleans())})
+    if draw(st.integers(0, 4)) == 0:
+        # a fixed shape: two families (g -> p), a command with both p's as parents, and commands declared after it that
+        # name one p only - they inherit from their own family and from nothing of the other
+        def mk(i, parents, internal=False):
+            return {"name": "cmd%d" % i if draw(st.booleans()) else "c%dx" % i, "internal": internal, "parents": parents,
+                    "help2": draw(st.booleans())}
+        gi = draw(st.booleans())
+        cmds = [mk(0, [], gi), mk(1, [], gi and draw(st.booleans())), mk(2, [0]), mk(3, [1]),
+                mk(4, [2, 3] if draw(st.booleans()) else [3, 2]), mk(5, [2]), mk(6, [3])]
+        if draw(st.booleans()):
+            cmds.append(mk(7, [5]))
+        n = len(cmds)
     if all(c["internal"] for c in cmds):
         cmds[draw(st.integers(0, n - 1))]["internal"] = False
     publics = [i for i, c in enumerate(cmds) if not c["internal"]]
